@@ -429,6 +429,39 @@ theorem cached_partial_detects (f : Fn) (ncached : Nat) (h : Heap) (args : List 
     simp only [hpr]
     rw [if_neg hne]
 
+/-! ## plain dict attributes: key order is irrelevant -/
+
+/-- **`flatten` of a dict does not depend on insertion order**: the pytree node for `dict` iterates `sorted(d.items())`,
+so two dicts with the same items inserted in different orders give the same graphdef, the same leaves in the same
+order and the same `ref_index` -- which is what lets `split` (one traversal) and `merge` (leaves sorted by path)
+agree on which leaf belongs to which Variable -/
+theorem dict_flatten_order_independent (fuel : Nat) (h : Heap) (path : Path) (kvs kvs' : List (Key × PVal)) (idx : RefIndex)
+    (hp : kvs.Perm kvs') (hn : keysNodup kvs) :
+    flattenVal fuel h path (.dict kvs) idx = flattenVal fuel h path (.dict kvs') idx := by
+  have hs : sortKV kvs' = sortKV kvs :=
+    sortBy_of_perm Key.strictTotal (hp.symm.trans (sortBy_perm kvs).symm) (sortKV_ssorted hn)
+  cases fuel with
+  | zero => rfl
+  | succ n => simp only [flattenVal, hs]
+
+/-- **merge ∘ split is the identity on a dict-valued attribute, as a map**: rebuilding what `flatten` emitted for a dict
+(whatever its insertion order, with raw or `VariableState` leaves) consumes exactly the emitted leaves and yields a
+dict with the same keys whose values correspond under the address map (`ValRel.dict` compares dicts after sorting
+by key); every Variable inside gets its own leaf -/
+theorem dict_roundtrip (raw : Bool) (fuel : Nat) (h : Heap) (kvs : List (Key × PVal)) (gd : GDef) (ls : FlatState)
+    (idx : RefIndex) (hf : flattenVal fuel h [] (.dict kvs) [] = .ok (gd, ls, idx)) :
+    ∃ v' H' ir', unflattenO (fun _ => Option.none) (stampWith (fun _ => Option.none) gd) (convLeaves raw ls) [] [] =
+        .ok (v', [], H', ir') ∧ ValRel (phi idx ir') (.dict kvs) v' := by
+  obtain ⟨v', H', ir', hu, _, _, hv⟩ := (simO (reuse_none h) raw (fun _ => Option.none) (fun _ => Option.none) idx
+    (fun _ _ _ => rfl) fuel).1 [] (.dict kvs) [] gd ls idx hf ⟨[], by simp⟩ [] [] [] (GoodO.nil _ _)
+  exact ⟨v', H', ir', by simpa using hu, hv⟩
+
+/-- `m.stats = {}; m.stats['total'] = Variable(100); m.stats['count'] = Variable(0)` (non-alphabetical insertion) and the
+same dict built in the other order flatten identically: the leaves come out as `count`, `total` -/
+example : (flattenVal 10 [.var ["Variable"] 100 [], .var ["Variable"] 0 []] []
+      (.dict [(.str "total", .ref 0), (.str "count", .ref 1)]) []).toOption.map (fun r => r.2.1.map (·.1)) =
+    some [[.str "count"], [.str "total"]] := by decide
+
 /-! ## the excluded region, stated (findings F31, F32) -/
 
 /-- `m.c.w = Param(1)` -/
